@@ -53,11 +53,18 @@ def make_noise_model(case):
         for k in case.get("extra_kw", {}):
             kw[k] = case["extra_kw"][k]
         return pulser.NoiseModel(**kw)
-    return SimpleNamespace(
+    return _DuckNoiseModel(
         noise_types=tuple(case["types"]), relaxation_rate=case["relaxation_rate"],
         dephasing_rate=case["dephasing_rate"], hyperfine_dephasing_rate=case["hyperfine_dephasing_rate"],
         depolarizing_rate=case["depolarizing_rate"], eff_noise_rates=tuple(case["eff_rates"]),
         eff_noise_opers=tuple(ops))
+
+
+class _DuckNoiseModel:
+    """duck-typed stand-in for pulser.NoiseModel (hashable by identity, so that caching code paths accept it)"""
+
+    def __init__(self, **kw):
+        self.__dict__.update(kw)
 
 
 def exc_code(ex):
@@ -98,6 +105,9 @@ def impl_run(case):
     except (AssertionError, NotImplementedError, ValueError, IndexError) as ex:
         out["all"] = ("Err", exc_code(ex))
         out["noise2"] = out["all"]
+    except Exception as ex:  # noqa: BLE001  any other exception: reported as a disagreement, never a harness crash
+        out["all"] = ("Err", f"unexpected {type(ex).__name__}: {ex}"[:200])
+        out["noise2"] = out["all"]
     single = {}
     for t in case["probes"]:
         try:
@@ -105,6 +115,8 @@ def impl_run(case):
             single[t] = ("Ok", [tensor_to_lists(o) for o in ops])
         except (AssertionError, NotImplementedError, ValueError, IndexError) as ex:
             single[t] = ("Err", exc_code(ex))
+        except Exception as ex:  # noqa: BLE001
+            single[t] = ("Err", f"unexpected {type(ex).__name__}: {ex}"[:200])
     out["single"] = single
     return out
 
